@@ -386,6 +386,36 @@ _base_check_c13 = check
 def check(ctx):            # noqa: F811  (extends the rules above)
     _base_check_c13(ctx)
     roundtrip(ctx, ctx.prog)
+    unlock_completes(ctx, ctx.prog)
+    # the plaintext seed is recognised by decoding it as a mnemonic (Account._decrypt_seed): what that decoder accepts is C06's business
+    R.share(ctx, "C06", {"C06-D5": "C13-D8"})
+
+
+def unlock_completes(ctx, prog):
+    """`encryption_password` is recorded only at the end of Wallet.unlock; what runs between the last decrypt and that line must not fail for any
+    kind of account (a watch-only account has no private key), or the wallet is left decrypted in memory with no password to re-encrypt with —
+    the next save writes the secrets in plaintext."""
+    import ast
+    from ..astutil import dotted, unparse
+    K = "lbry.wallet.account.DeterministicChannelKeyManager"
+    pk = ctx.fa(f"{K}.private_key")
+    derefs = [c for c in pk.calls(name="child") if unparse(c.func.value) == "self.account.private_key"]
+    ctx.floor("C13-D7/NONE", "derivation of the channel key root", len(derefs), 1, site=pk.site(), func=pk.fi.qualname)
+    for c in derefs:
+        R.gate(ctx, "C13-D7/NONE", pk, c, "self.account.private_key is not None", "the channel key root is derived only when the account HAS a private key (watch-only accounts: none)",
+               key=f"C13-D7/NONE|{pk.fi.qualname}|guard")
+    ep = ctx.fa(f"{K}.ensure_cache_primed")
+    for c in ep.calls(name="generate_next_key"):
+        R.gate(ctx, "C13-D7/NONE", ep, c, "self.private_key is not None", "priming the key cache is skipped for accounts without a private key", key=f"C13-D7/NONE|{ep.fi.qualname}|guard")
+    gn = ctx.fa(f"{K}.maybe_generate_deterministic_key_for_channel")
+    for c in [c for c in gn.calls(name="child") if unparse(c.func.value) == "self.private_key"]:
+        R.gate(ctx, "C13-D7/NONE", gn, c, "self.private_key is not None", "…as is key discovery while syncing", key=f"C13-D7/NONE|{gn.fi.qualname}|guard")
+    un = ctx.fa("lbry.wallet.wallet.Wallet.unlock")
+    sets = [s for s in un.stmts(ast.Assign) if any(unparse(t) == "self.encryption_password" for t in s.targets)]
+    between = [c for c in un.calls() if dotted(c.func) and dotted(c.func).split(".")[-1] not in ("decrypt", "ensure_cache_primed")]
+    ok = len(sets) == 1 and not between
+    ctx.ob("C13-D7/NONE", ok, un.site(), "Wallet.unlock calls nothing but account.decrypt and ensure_cache_primed before it records the password", func=un.fi.qualname,
+           detail="" if ok else f"other calls: {[unparse(c)[:60] for c in between]}", key="C13-D7/NONE|unlock|calls")
 
 
 def roundtrip(ctx, prog):
